@@ -27,49 +27,52 @@ Definition rb_read (n : nat) (q : bytes) : res (bytes * bytes) :=
 Definition rb_peek3 (k : nat) (q : bytes) : bytes * bytes :=
   let a := firstn 3 q in (firstn k a, skipn k a).
 
-(* ---- Header.Unpack(ctx, buffer): (done, header, queue) ; on error the queue as left ---- *)
+(* ---- Header.Unpack(ctx, buffer): (done, header, queue) ; on error the queue as left ----
+   [hdr_stream_tail] is the part after byte 0 has been absorbed (BeginUnpack = true). *)
+Definition bytes3_of (f e : bytes) : res (byte * byte * byte) :=
+  match length f with
+  | 0%nat => a <- go_index 0 e ;; b <- go_index 1 e ;; c <- go_index 2 e ;; Ok (a, b, c)
+  | 1%nat => a <- go_index 0 f ;; b <- go_index 0 e ;; c <- go_index 1 e ;; Ok (a, b, c)
+  | 2%nat => a <- go_index 0 f ;; b <- go_index 1 f ;; c <- go_index 0 e ;; Ok (a, b, c)
+  | _ => a <- go_index 0 f ;; b <- go_index 1 f ;; c <- go_index 2 f ;; Ok (a, b, c)
+  end.
+
+Definition hdr_stream_tail (v : N) (k : nat) (h1 : hdr) (q1 : bytes) : res (bool * hdr) * bytes :=
+  let ty := h_ty h1 in
+  if is_unknown ty then (Err EUnknownPacket, q1)
+  else
+    let remain := (N.to_nat (hdr_len v ty) - 1)%nat in
+    if (length q1 <? remain)%nat then (Ok (false, h1), q1)
+    else
+      let cmd := rb_peek_uint 1 q1 in
+      let q2 := rb_retrieve 1 q1 in
+      let rr := is_req ty || is_resp ty in
+      let rid := if rr then rb_peek_uint 4 q2 else h_rid h1 in
+      let q3 := if rr then rb_retrieve 4 q2 else q2 in
+      let tmo := if is_req ty then rb_peek_uint 2 q3 else h_timeout h1 in
+      let q4 := if is_req ty then rb_retrieve 2 q3 else q3 in
+      let st := if is_resp ty then rb_peek_uint 1 q4 else h_status h1 in
+      let q5 := if is_resp ty then rb_retrieve 1 q4 else q4 in
+      let ml := if v =? 2 then rb_peek_uint 2 q5 else h_mlen h1 in
+      let q6 := if v =? 2 then rb_retrieve 2 q5 else q5 in
+      let '(f, e) := rb_peek3 k q6 in
+      let q7 := rb_retrieve 3 q6 in
+      match bytes3_of f e with
+      | Ok (fb, sb, tb) =>
+          let blen := N.lor (N.lor (N.shiftl (bN fb) 16) (N.shiftl (bN sb) 8)) (bN tb) in
+          (Ok (true, with_rest h1 cmd rid tmo st ml blen true), q7)
+      | Err e => (Err e, q7)
+      | Panic => (Panic, q7)
+      | OutOfFuel => (OutOfFuel, q7)
+      end.
+
 Definition hdr_stream_unpack (v : N) (k : nat) (h : hdr) (q : bytes) : res (bool * hdr) * bytes :=
   if (length q =? 0)%nat then (Ok (false, h), q)
   else if h_unpacked h then (Ok (true, h), q)
   else
-    let '(h1, q1) :=
-      if h_begin h then (h, q)
-      else let b := rb_peek_uint 1 q in
-           (with_b0 h (b0_ty b) (b0_verify b) (b0_gzip b) (b0_reserve b) true, rb_retrieve 1 q) in
-    let ty := h_ty h1 in
-    if is_unknown ty then (Err EUnknownPacket, q1)
-    else
-      let remain := (N.to_nat (hdr_len v ty) - 1)%nat in
-      if (length q1 <? remain)%nat then (Ok (false, h1), q1)
-      else
-        let cmd := rb_peek_uint 1 q1 in
-        let q2 := rb_retrieve 1 q1 in
-        let rr := is_req ty || is_resp ty in
-        let rid := if rr then rb_peek_uint 4 q2 else h_rid h1 in
-        let q3 := if rr then rb_retrieve 4 q2 else q2 in
-        let tmo := if is_req ty then rb_peek_uint 2 q3 else h_timeout h1 in
-        let q4 := if is_req ty then rb_retrieve 2 q3 else q3 in
-        let st := if is_resp ty then rb_peek_uint 1 q4 else h_status h1 in
-        let q5 := if is_resp ty then rb_retrieve 1 q4 else q4 in
-        let ml := if v =? 2 then rb_peek_uint 2 q5 else h_mlen h1 in
-        let q6 := if v =? 2 then rb_retrieve 2 q5 else q5 in
-        let '(f, e) := rb_peek3 k q6 in
-        let q7 := rb_retrieve 3 q6 in
-        let bytes3 :=
-          match length f with
-          | 0%nat => a <- go_index 0 e ;; b <- go_index 1 e ;; c <- go_index 2 e ;; Ok (a, b, c)
-          | 1%nat => a <- go_index 0 f ;; b <- go_index 0 e ;; c <- go_index 1 e ;; Ok (a, b, c)
-          | 2%nat => a <- go_index 0 f ;; b <- go_index 1 f ;; c <- go_index 0 e ;; Ok (a, b, c)
-          | _ => a <- go_index 0 f ;; b <- go_index 1 f ;; c <- go_index 2 f ;; Ok (a, b, c)
-          end in
-        match bytes3 with
-        | Ok (fb, sb, tb) =>
-            let blen := N.lor (N.lor (N.shiftl (bN fb) 16) (N.shiftl (bN sb) 8)) (bN tb) in
-            (Ok (true, with_rest h1 cmd rid tmo st ml blen true), q7)
-        | Err e => (Err e, q7)
-        | Panic => (Panic, q7)
-        | OutOfFuel => (OutOfFuel, q7)
-        end.
+    if h_begin h then hdr_stream_tail v k h q
+    else let b := rb_peek_uint 1 q in
+         hdr_stream_tail v k (with_b0 h (b0_ty b) (b0_verify b) (b0_gzip b) (b0_reserve b) true) (rb_retrieve 1 q).
 
 (* ---- protocolV1/V2.Unpack(ctx, buf) ---- *)
 Record sstate := mkS { s_pend : option hdr; s_q : bytes }.
